@@ -272,7 +272,7 @@ fn finish_blind(case: &str, spec: &TxSpec, r: BlindRes) -> Out {
     match r {
         BlindRes::Panic => {
             let pred_fail = if nmarked == 0 {
-                Some("F12-blind-nothing-marked|Transaction::blind panics (expect \"Internal output calculation error\") when no output is marked; BlindError::TooFewBlindingOutputs is never returned".to_string())
+                Some("F12-blind-nothing-marked|Transaction::blind panics when no output is marked instead of returning BlindError::TooFewBlindingOutputs (regression of repair 8d5600e)".to_string())
             } else if hyp { Some("blind-panicked|Transaction::blind panicked on a valid balanced explicit transaction".to_string()) } else { None };
             Out { result: "panic".into(), pred_fail }
         }
